@@ -49,10 +49,11 @@ def gen_reads(rng, n, paired):
                 q = "".join(chr(rng.choice([30, 31, 35, 60, 70])) for _ in s)   # below the base: zero-cap matters
             return s, q
         tail = rng.choice(["x/1", "x/1", "x_b_a", "x_a_a", "x", "x/1/1"])
+        sep = "\t" if i % 5 == 2 else " "      # id and comment may be separated by a tab (SAM-style tags)
         s, q = one(1)
-        out1.append((f"r{i} length={len(s)} {tail}", s, q))
+        out1.append((f"r{i}{sep}length={len(s)} {tail}", s, q))
         s, q = one(2)
-        out2.append((f"r{i} length={len(s)} {tail.replace('/1', '/2')}", s, q))
+        out2.append((f"r{i}{sep}length={len(s)} {tail.replace('/1', '/2')}", s, q))
     return out1, (out2 if paired else None)
 
 
@@ -208,6 +209,16 @@ def check_trace(ctx, run, case, stages, paired, viol):
                     sx = xy[xy.index("-y") + 1] if "-y" in xy else ""
                     if "{name}" not in px + sx and o[0] != px + i[0] + sx:
                         viol("prefix-suffix-step", f"read {key} side {side}: -x {px!r} -y {sx!r} turned the name {i[0]!r} into {o[0]!r}, expected {px + i[0] + sx!r}")
+                if cls in ("Renamer", "PairedEndRenamer") and o is not None and dict(stages).get("rename"):
+                    # the step itself, by its definition: {id} is the header up to the first white space, {comment} what
+                    # follows that white space, {header} the whole header
+                    tmpl = dict(stages)["rename"][1]
+                    parts = i[0].split(None, 1)
+                    if i[0] and not i[0][0].isspace() and not i[0][-1].isspace():
+                        want_name = tmpl.format(id=parts[0], comment=parts[1] if len(parts) > 1 else "", header=i[0])
+                        if o[0] != want_name:
+                            viol("rename-step", f"read {key} side {side}: --rename {tmpl!r} turned the name {i[0]!r} into {o[0]!r}, expected {want_name!r}")
+                        ctx.count("rename_steps_judged")
                 if cls == "SuffixRemover" and o is not None and not (o[0] == i[0] or (i[0].startswith(o[0]) and i[0][len(o[0]):] in (dict(stages).get("strip") or []))):
                     viol("strip-suffix-step", f"read {key} side {side}: --strip-suffix turned {i[0]!r} into {o[0]!r}")
                 if prev is not None and (i[1], i[2]) != (prev[1], prev[2]):
